@@ -380,7 +380,8 @@ func c12Magic(w *World, r *Report) {
 			if _, isC := x.(*ssa.Const); isC {
 				other = y
 			}
-			po := w.prov(other, provOpts{})
+			// the decode may sit in a small reader helper or local closure (u32(off)): follow in-module calls
+			po := w.prov(other, provOpts{followCalls: true})
 			dev := po.hasCall(func(rt Root) bool {
 				n := ""
 				if rt.Fn != nil {
